@@ -69,6 +69,16 @@ class PathResult:
     __slots__ = ('outcome', 'exc', 'ast', 'message', 'tokens', 'pulled', 'parser', 'first_error')
 
 
+_N_TEXT = [0]
+
+
+def _stand_in_text():
+    """the text argument of parse_sql stands for the text of this execution's token stream: a different stream is a different text, so
+    every execution gets its own (anything keyed on the text - a memo of parsed statements, say - must not confuse two executions)"""
+    _N_TEXT[0] += 1
+    return '<symbolic token stream %d>' % _N_TEXT[0]
+
+
 def run_tail(dialect, L, P, tokens, full_error_handling=True):
     """the real parse_sql with the lexer replaced by the given token stream"""
     import mindsdb_sql
@@ -100,7 +110,7 @@ def run_tail(dialect, L, P, tokens, full_error_handling=True):
     r.ast = None
     r.message = None
     try:
-        r.ast = mindsdb_sql.parse_sql('<symbolic token stream>', dialect)
+        r.ast = mindsdb_sql.parse_sql(_stand_in_text(), dialect)
         r.outcome = 'accept' if r.ast is not None else 'none-returned'
     except ParsingException as e:
         r.outcome = 'reject'
@@ -228,7 +238,7 @@ def run_tail_real(dialect, L, tokens):
     r = PathResult()
     r.exc = r.ast = r.message = None
     try:
-        r.ast = mindsdb_sql.parse_sql('<symbolic token stream>', dialect)
+        r.ast = mindsdb_sql.parse_sql(_stand_in_text(), dialect)
         r.outcome = 'accept' if r.ast is not None else 'none-returned'
     except ParsingException as e:
         r.outcome = 'reject'
